@@ -73,6 +73,15 @@ def run(cx):
             e = show(b.rvalue_expr(node["rv"]))
             inst.site(b, l, "total_size = " + e[:110])
             m = re.fullmatch(r"sub\(arg1\.total_size,PendingPacket::size\(RefCell::borrow\(Option::unwrap\((arg1\.window\[.*\])\)\.packet\)\)\)", e)
+            mt = re.fullmatch(r"sub\(arg1\.total_size,PendingPacket::size\(RefCell::borrow\(Option::unwrap\(Option::take\((arg1\.window\[.*\])\)\)\.packet\)\)\)", e)
+            if mt:
+                # the entry is taken out of its slot and its size subtracted: vacating and reading are one call
+                slot = mt.group(1)
+                takes = [l2 for l2, t2 in b.calls("Option::take") if show(b.call_expr(t2)) == "Option::take(%s)" % slot]
+                cx.followed_by(inst, b, [(l2, "window[idx].take()") for l2 in takes], [l], "slot cleared without subtract", "total_size -= size(entry)")
+                if not takes:
+                    inst.violation(b.path, "total_size -= (ack)", "the entry whose size is subtracted is not taken from a window slot (anchor)", at=b.span_at(l))
+                continue
             if not m:
                 inst.violation(b.path, "total_size -= (ack)", "acknowledge subtracts `%s`, expected the acknowledged entry's packet size" % e, at=b.span_at(l))
                 continue
